@@ -12,18 +12,22 @@ def groups(tier):
                   bound='control-flow skeleton (E3) with value tags; loops unrolled twice', timeout=900, backend=['sat', 'cadical'],
                   clause='an ANNOUNCE changes node state (cached manifest, key shares, provider contact, scheduled fetch) only if the sender is not '
                          'locked out, names itself, carries valid PoW, passed the throttle, and its manifest decoded, matches the announced chunk, '
-                         'meets its threshold and is unexpired')]
+                         'meets its threshold and is unexpired'),
+            Group('announce.assigned_shards', 'announce_shards', 'C21/shards_valid.c', entry='h_shards_valid', unwind=6, kind='bounded', backend=['sat', 'cadical'], timeout=300,
+                  checks=['--bounds-check', '--pointer-check'], replay='foreign_share', bound='at most 3 assigned indices and 4 carried shares, all index values',
+                  clause='handle_announce (the declaration of shards_valid, lowered as a slice) admits an announcement exactly when every share index it assigns '
+                         'is carried by the announced manifest')]
 
 
 def replay(group, trace):
     """the REAL Node: baseline announce accepted, then announces that each break ONE admission condition"""
     import sys, os
-    if group.replay != 'announce':
+    if group.replay not in ('announce', 'foreign_share'):
         return None, 'no native replay for this group'
     root = os.path.dirname(os.path.dirname(os.path.abspath(__file__)))
     sys.path.insert(0, os.path.join(root, 'replay'))
     import replaylib as R
     exe = R.build_full('C21.cpp', with_daemon=False, exclude=['src/core/Node.cpp'])
-    rc, out = R.run(exe, ['all'], timeout=180)
+    rc, out = R.run(exe, ['all' if group.replay == 'announce' else group.replay], timeout=180)
     last = [l for l in out.strip().splitlines() if l.strip()][-1:] or ['']
     return rc == 1, last[0][:400]
